@@ -4,7 +4,6 @@ import (
 	"flag"
 	"fmt"
 	"os"
-	"runtime"
 	"sort"
 	"strings"
 	"time"
@@ -95,7 +94,7 @@ func cmdUnit(args []string) {
 				}
 				r.Obligs = keep
 			}
-			solveUnit(r, solveOpts{timeout: time.Duration(*to) * time.Second, all: *all, workdir: *keep, par: runtime.NumCPU()})
+			solveUnit(r, solveOpts{timeout: time.Duration(*to) * time.Second, all: *all, workdir: *keep, par: solverPar()})
 			fmt.Println(r.summary())
 			if r.Err != "" {
 				fmt.Println("  UNIT ERROR:", r.Err)
